@@ -68,11 +68,22 @@ def _case(draw):
     ws = draw(st.lists(watcher_spec(allow_slot=True, allow_class=False, fam=fam), min_size=1, max_size=6))
     for w in ws:
         w["script"] = []
+        if draw(st.integers(0, 5)) == 0:
+            w["raise_skip"] = True                          # the callback ends by raising param.Skip
         if w["what"] != "value":
             w["names"] = [4]                                # a watcher of a Parameter attribute of `num` (bounds / doc)
         elif draw(st.integers(0, 4)) == 0:
             w["names"] = sorted(set(w["names"]) | {3})     # also watches the Event parameter
     prog = draw(st.lists(_tree(fam), min_size=1, max_size=5))
+    if draw(st.integers(0, 3)) == 0:
+        # a batch whose events are all for ONE parameter: first the value it already has (only unfiltered watchers
+        # qualify), then a change - so the watchers enter the queue in an order unrelated to their precedence
+        t_ = draw(st.integers(0, 1))
+        n_ = draw(st.integers(0, 2))
+        v_ = draw(val_strategy(fam))
+        prog.insert(draw(st.integers(0, len(prog))), ["batch", t_, [["set", t_, n_, v_]]])
+        prog.insert(draw(st.integers(0, len(prog))),
+                    ["batch", t_, [["set", t_, n_, v_], ["set", t_, n_, draw(val_strategy(fam))]]])
     links = None
     if draw(st.integers(0, 2)) == 0:
         # a second, small scenario for "update(...) as a context manager restores the previous values AND links"
@@ -83,6 +94,8 @@ def _case(draw):
             "keys": [list(k) for k in draw(st.lists(st.tuples(st.integers(0, 2), st.integers(1, 9)), min_size=1, max_size=3,
                                                      unique_by=lambda k: k[0]))],
             "bump_inside": draw(st.booleans()),
+            # a Dynamic parameter holding a number generator is among the names of the context
+            "gen": draw(st.booleans()),
         }
     cbd = None
     if draw(st.integers(0, 2)) == 0:
@@ -506,8 +519,14 @@ def _links_scenario(res, lk):
     """`with t.param.update(...)` over linked parameters: on exit the previous values and links are back."""
     import param
     S = type("S", (param.Parameterized,), {"v": param.Number(1), "w": param.Number(2)})
+    calls = []
+
+    def on_any(self):
+        calls.append((self.r1, self.r2, self.p))
     T = type("T", (param.Parameterized,), {"r1": param.Number(0, allow_refs=True), "r2": param.Number(0, allow_refs=True),
-                                           "p": param.Number(0)})
+                                           "p": param.Number(0), "g": param.Number(0),
+                                           # one dependent method over linked and plain parameters alike
+                                           "on_any": param.depends("r1", "r2", "p", watch=True)(on_any)})
     s = S()
     srcs = {"r1": (s.param.v, "v"), "r2": (s.param.w, "w")}
     kw = {n: srcs[n][0] for n, on in zip(("r1", "r2"), lk["linked"]) if on}
@@ -519,6 +538,19 @@ def _links_scenario(res, lk):
         t = T(**kw)
     names = ["r1", "r2", "p"]
     upd = {names[i]: 100 + v for i, v in lk["keys"]}
+    gen = None
+    if lk.get("gen"):
+        class _Counter:
+            def __init__(self):
+                self.n = 0
+
+            def __call__(self):
+                self.n += 1
+                return self.n
+        gen = _Counter()
+        t.g = gen
+        upd["g"] = 55
+        res.label("links:generator_in_context")
     before = {n: getattr(t, n) for n in names}
     items = list(upd.items())
     if lk["form"] == "kw" or len(items) < 2 and lk["form"] in ("mapkw", "kwmap"):
@@ -530,17 +562,33 @@ def _links_scenario(res, lk):
     else:
         cm = t.param.update(dict(items[1:]), **dict(items[:1]))
     res.label(f"links:{lk['form']}")
+    del calls[:]
     with cm:
+        if len(calls) > 1:
+            res.fail("C04.watcher_called_twice", f"entering `with update({lk['form']}: {upd})`: the method depending on all of them ran "
+                                                 f"{len(calls)} times: {calls!r}")
         for n, v in upd.items():
             if getattr(t, n) != v:
                 res.fail("C04.update_context_value", f"inside `with update(...)` {n} is {getattr(t, n)!r}, expected {v!r}")
         if lk["bump_inside"]:
             s.v += 10
+        del calls[:]
+    if len(calls) > 1:
+        res.fail("C04.watcher_called_twice", f"leaving `with update({lk['form']}: {upd})` (linked: {sorted(kw)}): the method depending on "
+                                             f"all of them ran {len(calls)} times for the one restore: {calls!r}")
+    elif not calls and any(getattr(t, n) != v for n, v in upd.items()):
+        res.fail("C04.missing_call", f"leaving `with update({lk['form']}: {upd})` changed values but the dependent method did not run")
     for n in names:
         if n in upd and not (lk["bump_inside"] and n == "r1" and n in kw):
             if getattr(t, n) != before[n]:
                 res.fail("C04.update_context_restore", f"after `with update({lk['form']}: {upd})` {n} is {getattr(t, n)!r}, "
                                                        f"was {before[n]!r} before entry")
+    if gen is not None:
+        if t.param.get_value_generator("g") is not gen:
+            res.fail("C04.update_context_restore", f"after `with update({lk['form']}: {upd})` the Dynamic parameter g holds "
+                                                   f"{t.param.get_value_generator('g')!r} instead of the generator it had before")
+        elif gen.n != 0:
+            res.fail("C04.update_context_restore", f"the update() context drew {gen.n} value(s) from the generator held by g")
     # links are back: every linked parameter follows its source again, unlinked ones do not move
     s.param.update(v=s.v + 1, w=s.w + 1)
     for n in ("r1", "r2"):
